@@ -7,8 +7,8 @@ import G3d.Props.C19
 * `push_accepts_clear` — **every point that keeps the outline planar and non-crossing is accepted**: an open loop, a point
   within the coplanarity gate, and a new edge that has no point in common with any earlier edge (`j < n − 2`) coplanar with it.
 * `ipt_complete` / `intersect_of_crossing` — two coplanar, non-parallel segments that meet at parameters `t_a ∈ [0,1)` of the
-  first and `t_b ∈ [1e-8, 1 − 1e-8)` of the second are reported as crossing (at those parameters), provided the directions are not
-  `is_same_direction` and the dominant component of `a × b` exceeds `1e-5`;
+  first and `t_b ∈ [1e-8, 1 − 1e-8)` of the second are reported as crossing (at those parameters), provided the dominant component
+  of `a × b` exceeds `1e-5` (since the repair of `get_intersection_pt` also when the two directions nearly agree);
 * `push_refuses_crossing` — hence **a point whose connecting edge properly crosses an earlier edge is refused, and the loop is
   unchanged**.
 -/
@@ -59,15 +59,13 @@ theorem solve2_complete (au av bu bv du dv det tA tB : ℝ) (hdet : det = av * b
   · rw [div_eq_iff hne, hu, hv, hdet]; ring
 
 /-- **`get_intersection_pt` finds every transversal meeting point of two coplanar segments**: if the segments meet at
-    parameters `(t_a, t_b)`, are not `is_same_direction`, and the dominant component of `a × b` exceeds `1e-5`, it returns
-    exactly `(t_a, t_b)` -/
+    parameters `(t_a, t_b)` and the dominant component of `a × b` exceeds `1e-5`, it returns exactly `(t_a, t_b)` -/
 theorem ipt_complete (s i : Segment ℝ) (tA tB : ℝ) (hmeet : at' s tA = at' i tB)
-    (hdir : (s.stop - s.start).isSameDirection (i.stop - i.start) = false)
     (hbig : 1e-5 < |(nrm s i).x| ∨ 1e-5 < |(nrm s i).y| ∨ 1e-5 < |(nrm s i).z|) :
     s.getIntersectionPt i = some (tA, tB) := by
   obtain ⟨s0, s1, sl⟩ := s
   obtain ⟨i0, i1, il⟩ := i
-  simp only [at', nrm] at hmeet hbig hdir
+  simp only [at', nrm] at hmeet hbig
   -- component equations of the meeting point
   have ex : (s0 - i0).x + (s1 - s0).x * tA - (i1 - i0).x * tB = 0 := by
     have := congrArg V3.x hmeet; vec_real_at this; vec_real; linarith
@@ -91,8 +89,7 @@ theorem ipt_complete (s i : Segment ℝ) (tA tB : ℝ) (hmeet : at' s tA = at' i
   have hlen : 0 ≤ ((s1 - s0).cross (i1 - i0)).length := by simp only [V3.length, real_sqrt]; exact Real.sqrt_nonneg _
   unfold Segment.getIntersectionPt
   simp only []
-  split_ifs with k1 k2 k3 k4 k5
-  · rw [hdir] at k1; cases k1
+  split_ifs with k2 k3 k4 k5
   · exfalso
     simp only [real_gt_dec, decide_eq_true_eq] at k2; num_real_at k2
     rw [hcop, abs_zero] at k2
@@ -150,11 +147,10 @@ theorem ipt_complete (s i : Segment ℝ) (tA tB : ℝ) (hmeet : at' s tA = at' i
 
 /-- two coplanar segments that meet transversally at interior parameters are reported as crossing -/
 theorem intersect_of_crossing (s i : Segment ℝ) (tA tB : ℝ) (hmeet : at' s tA = at' i tB)
-    (hdir : (s.stop - s.start).isSameDirection (i.stop - i.start) = false)
     (hbig : 1e-5 < |(nrm s i).x| ∨ 1e-5 < |(nrm s i).y| ∨ 1e-5 < |(nrm s i).z|)
     (h1 : 0 ≤ tA) (h2 : tA < 1) (h3 : 1e-8 ≤ tB) (h4 : tB < 1 - 1e-8) :
     s.intersect i = some (at' s tA) :=
-  (intersect_iff s i _).mpr ⟨tA, tB, ipt_complete s i tA tB hmeet hdir hbig, h1, h2, h3, h4, rfl⟩
+  (intersect_iff s i _).mpr ⟨tA, tB, ipt_complete s i tA tB hmeet hbig, h1, h2, h3, h4, rfl⟩
 
 /-- **a point whose connecting edge properly crosses an earlier edge is refused, and the loop is unchanged** -/
 theorem push_refuses_crossing (l : Loop ℝ) (p : V3 ℝ) (h3 : 3 ≤ l.vertices.length) (j : Nat) (hj : j < l.vertices.length - 2)
@@ -162,7 +158,6 @@ theorem push_refuses_crossing (l : Loop ℝ) (p : V3 ℝ) (h3 : 3 ≤ l.vertices
     (hcross : let newEdge := Segment.new (l.vertices[l.vertices.length - 1]) p
               let old := Segment.new (l.vertices[j]'(by omega)) (l.vertices[j + 1]'(by omega))
               at' newEdge tA = at' old tB ∧
-              (newEdge.stop - newEdge.start).isSameDirection (old.stop - old.start) = false ∧
               (1e-5 < |(nrm newEdge old).x| ∨ 1e-5 < |(nrm newEdge old).y| ∨ 1e-5 < |(nrm newEdge old).z|))
     (h1 : 0 ≤ tA) (h2 : tA < 1) (h3' : 1e-8 ≤ tB) (h4 : tB < 1 - 1e-8) :
     (l.push p).2 ≠ .ok () ∧ (l.push p).1 = l := by
@@ -170,8 +165,8 @@ theorem push_refuses_crossing (l : Loop ℝ) (p : V3 ℝ) (h3 : 3 ≤ l.vertices
     intro hok
     rw [push_ok_iff_valid, validToAdd_ok_iff] at hok
     have hnone := hok.2.2 h3 j hj
-    obtain ⟨hm, hd, hb⟩ := hcross
-    rw [intersect_of_crossing _ _ tA tB hm hd hb h1 h2 h3' h4] at hnone
+    obtain ⟨hm, hb⟩ := hcross
+    rw [intersect_of_crossing _ _ tA tB hm hb h1 h2 h3' h4] at hnone
     cases hnone
   exact ⟨hne, push_unchanged_of_not_ok l p hne⟩
 
